@@ -2,6 +2,7 @@
 of concrete values, a recorded corpus of real ``(cls, args)`` interpretation calls, and the pool of types.
 
 Everything is built once per process, in a deterministic order, and only *reads* funsor's registries."""
+import abc
 import gc
 import importlib
 import sys
@@ -46,6 +47,78 @@ CORPUS_TYPE_BOUND = 80  # distinct argument types of the recorded corpus added t
 
 def set_tier(tier):
     TIER["t"] = "thorough" if tier == "thorough" else "quick"
+
+
+class TupleLike(abc.ABC):
+    """A user ABC that tuple is registered for (a plain class that tuple 'subclasses' only virtually)."""
+
+
+TupleLike.register(tuple)
+
+
+def _synthetic_dispatchers():
+    """Fresh PartialDispatcher objects (never part of funsor's registries) whose signatures put plain classes and
+    ABCs at positions that receive tuples / frozensets, next to parametrised Tuple / FrozenSet patterns."""
+    import collections.abc as cabc
+    import typing
+
+    from funsor.registry import PartialDispatcher
+    from funsor.tensor import Tensor
+    from funsor.terms import Funsor, Variable
+
+    def impl(name):
+        def f(*args):
+            return name
+
+        f.__name__ = f.__qualname__ = "synth_" + name
+        return f
+
+    out = OrderedDict()
+    specs = {
+        "containers1": (
+            1,
+            [
+                ((cabc.Iterable,), "iterable"),
+                ((cabc.Collection,), "collection"),
+                ((cabc.Sequence,), "sequence"),
+                ((cabc.Set,), "set"),
+                ((tuple,), "tuple"),
+                ((typing.Tuple[Funsor, ...],), "tuple_of_funsors"),
+                ((typing.Tuple[Tensor, ...],), "tuple_of_tensors"),
+                ((typing.Tuple[Tensor, Tensor],), "pair_of_tensors"),
+                ((frozenset,), "frozenset"),
+                ((typing.FrozenSet[Variable],), "frozenset_of_variables"),
+                ((Funsor,), "funsor"),
+            ],
+        ),
+        "userabc1": (
+            1,
+            [
+                ((TupleLike,), "tuplelike"),
+                ((typing.Tuple[Tensor, ...],), "tuple_of_tensors"),
+                ((cabc.Sized,), "sized"),
+            ],
+        ),
+        "containers2": (
+            2,
+            [
+                ((cabc.Sized, cabc.Collection), "sized_collection"),
+                ((cabc.Sequence, cabc.Collection), "sequence_collection"),
+                ((cabc.Sequence, cabc.Set), "sequence_set"),
+                ((typing.Tuple[Funsor, ...], cabc.Set), "funsors_set"),
+                ((typing.Tuple[Funsor, ...], typing.FrozenSet[Variable]), "funsors_variables"),
+                ((TupleLike, frozenset), "tuplelike_frozenset"),
+                ((Funsor, cabc.Sequence), "funsor_sequence"),
+                ((Funsor, typing.Tuple[Tensor, ...]), "funsor_tensors"),
+            ],
+        ),
+    }
+    for name, (arity, table) in specs.items():
+        d = PartialDispatcher(impl("default_" + name), "synth_" + name)
+        for sig, fn in table:
+            d.add(sig, impl(name + "_" + fn))
+        out["synth|" + name] = {"kind": "synth", "d": d, "arity": arity}
+    return out
 
 
 def unwrap(t):
@@ -156,6 +229,7 @@ def _find_dispatchers():
         d = oc.__dict__.get("dispatcher")
         if d is not None and isinstance(oc.arity, int):
             disp["op|%s" % oc.__name__] = {"kind": "op", "opcls": oc, "d": d, "arity": oc.arity}
+    disp.update(_synthetic_dispatchers())
     return regs, disp
 
 
@@ -297,7 +371,90 @@ def _values():
     add("fset_vars_mixed", frozenset([x, i]))
     add("subs_pairs", (("x", t_0),))
     add("inputs_tuple", (("i", Bint[2]), ("x", Real)))
+    try:
+        rebuilt = _rebuilt(locals())
+    except Exception:  # a library too broken to rebuild terms is reported by the other families
+        rebuilt = []
+    for label, v in rebuilt:
+        add(label, v)
     return out
+
+
+def _rebuilt(env):
+    """Terms obtained by REBUILDING existing terms (reinterpretation under another interpretation, substitution into
+    lazy terms, binders over bodies that evaluate to another class, pickle round trips): their class parameters
+    must describe the arguments they were rebuilt with, not the arguments of the term they were rebuilt from."""
+    import pickle
+
+    from funsor import Bint, Real, ops
+    from funsor.interpretations import eager, lazy, normalize, reflect
+    from funsor.interpreter import reinterpret
+    from funsor.terms import Binary, Independent, Lambda, Reduce, Stack, Subs, Unary, Variable
+
+    t_i, t_ij, t_0, x, i, y = (env[k] for k in ("t_i", "t_ij", "t_0", "x", "i", "y"))
+    gauss = env["gauss"]
+    j = Variable("j", Bint[3])
+    z = Variable("z", Real)
+    with lazy:
+        inner_tt = Binary(ops.add, t_i, t_i)  # evaluates to a Tensor
+        inner_sub = Binary(ops.mul, t_ij, t_i)
+        z_lazy = Binary(ops.mul, z, t_0)
+        progs = OrderedDict(
+            parent_keeps_variable=Binary(ops.add, inner_tt, x),
+            parent_unary_over_var=Unary(ops.exp, Binary(ops.add, Unary(ops.neg, t_i), x)),
+            nested_parents=Binary(ops.mul, Binary(ops.add, inner_tt, x), Binary(ops.sub, inner_sub, z)),
+            lambda_over_lazy=Lambda(i, inner_tt),
+            lambda_over_lazy_free=Lambda(i, Binary(ops.add, inner_tt, x)),
+            unary_of_lambda=Unary(ops.neg, Lambda(i, inner_tt)),
+            reduce_over_lazy=Reduce(ops.add, Binary(ops.add, inner_sub, x), frozenset([j])),
+            reduce_logaddexp_gauss=Reduce(ops.logaddexp, Binary(ops.add, Binary(ops.add, gauss, inner_tt), z), frozenset([i])),
+            subs_lazy=Subs(Binary(ops.add, inner_tt, x), (("x", Binary(ops.mul, z, t_0)),)),
+            stack_of_lazy=Stack("k", (inner_tt, Binary(ops.add, t_i, x))),
+            getitem_lazy=Binary(ops.getitem, Lambda(i, inner_tt), Variable("m", Bint[2])),
+        )
+    out = []
+    for name, e in progs.items():
+        for iname, interp in (("eager", eager), ("normalize", normalize), ("lazy", lazy), ("reflect", reflect)):
+            try:
+                with interp:
+                    r = reinterpret(e)
+            except Exception:
+                continue
+            out.append(("rebuilt_%s_%s" % (name, iname), r))
+        # substitution into the lazy term (a rebuilding traversal of its own), under lazy and under eager
+        for iname, interp in (("lazy", lazy), ("eager", eager)):
+            for sname, subs in (("x_tensor", {"x": t_0}), ("x_var", {"x": z}), ("i_int", {"i": 1}), ("x_lazy", {"x": z_lazy})):
+                try:
+                    with interp:
+                        r = e(**{k: v for k, v in subs.items() if k in e.inputs})
+                except Exception:
+                    continue
+                out.append(("rebuilt_%s_subs_%s_%s" % (name, sname, iname), r))
+        # binder built under eager directly over the lazily built sub-term
+        try:
+            with eager:
+                r = Lambda(Variable("n", Bint[2]), e) if "n" not in e.inputs else None
+            if r is not None:
+                out.append(("rebuilt_%s_under_lambda" % name, r))
+        except Exception:
+            pass
+        try:
+            with reflect:
+                r = pickle.loads(pickle.dumps(e))
+            out.append(("rebuilt_%s_pickled" % name, r))
+            with eager:
+                r = pickle.loads(pickle.dumps(e))
+            out.append(("rebuilt_%s_pickled_eager" % name, r))
+        except Exception:
+            pass
+    # keep one value per distinct object (cons hashing returns the same object for equal rebuilds)
+    seen, kept = set(), []
+    for label, v in out:
+        if id(v) in seen or not hasattr(v, "_ast_values"):
+            continue
+        seen.add(id(v))
+        kept.append((label, v))
+    return kept
 
 
 # ---------------------------------------------------------------------------
@@ -415,6 +572,19 @@ def _corpus(values, tier):
     for ap in (argmax_approximate, mean_approximate, laplace_approximate):
         run(ap, lambda: Approximate(ops.logaddexp, g + t_i, g, frozenset([x])))
         run(ap, lambda: (g + t_i).approximate(ops.logaddexp, g, "x"))
+    # rebuilt terms as arguments of new terms, under every interpretation
+    j3 = Variable("j", Bint[3])
+    for label, r in values:
+        if not label.startswith("rebuilt_"):
+            continue
+        for interp in (eager, lazy, normalize):
+            run(interp, lambda: funsor.terms.Unary(ops.neg, r))
+            run(interp, lambda: funsor.terms.Unary(ops.exp, r))
+            run(interp, lambda: funsor.terms.Binary(ops.add, r, t_i))
+            run(interp, lambda: funsor.terms.Binary(ops.getitem, r, Variable("q", Bint[2])))
+            run(interp, lambda: funsor.terms.Reduce(ops.add, r, frozenset([v for v in (i, j3) if v.name in r.inputs])))
+            run(interp, lambda: r(x=t_0))
+            run(interp, lambda: reinterpret(r))
     if tier == "thorough":
         from .. import gen
         from ..ref import lang
@@ -454,6 +624,8 @@ def _handmade():
     from funsor.ops import AddOp, AssociativeOp, LogaddexpOp, NullOp, Op
     from funsor.tensor import Tensor
     from funsor.terms import Binary, Funsor, Number, Reduce, Unary, Variable
+
+    import collections.abc as cabc
 
     T, U, F, A = typing.Tuple, typing.Union, typing.FrozenSet, typing.Any
     return [
@@ -511,6 +683,22 @@ def _handmade():
         T[tuple, ...],
         T[tuple, str],
         T[frozenset, int],
+        # plain classes / ABCs that tuple and frozenset subclass (really or virtually).  collections.abc.Hashable is
+        # left out on purpose: its hook accepts every class object with the default __hash__, including other ABCs
+        # and multipledispatch's variadic marker, so Python's own relation is not transitive there (Sized <= Hashable,
+        # list <= Sized, list is not Hashable) and a (Hashable,) signature ties with the variadic default by hash().
+        cabc.Iterable,
+        cabc.Collection,
+        cabc.Sequence,
+        cabc.Set,
+        cabc.Sized,
+        cabc.Mapping,
+        TupleLike,
+        U[cabc.Sequence, cabc.Set],
+        T[cabc.Sequence, cabc.Sized],
+        T[cabc.Sized, ...],
+        F[cabc.Sized],
+        F[cabc.Sequence],
         # funsor families
         Funsor,
         Tensor,
@@ -571,7 +759,9 @@ def _pool(disp, values, corpus):
                 else:
                     _components(unwrap(e), acc)
     n_sig = len(acc)
-    for _, v in values:
+    for label, v in values:
+        if label.startswith("rebuilt_"):
+            continue  # checked in the mem family; their (large) precise types are not added to the pool
         try:
             _components(deep_type(v), acc)
         except NotImplementedError:
